@@ -84,7 +84,7 @@ def gen_case(rng, arm, tier, k=0):
         "Yt": gen_labels(rng, nt, K),
         "Xv": gen_matrix(rng, nv, d, style),
         "Yv": gen_labels(rng, nv, K),
-        "iters": rng.randint(1, 6),
+        "iters": rng.choice((1, 2, 3, 4, 5, 6, 8, 10)),
         "fallback": rng.getrandbits(32),
     }
     if rng.random() < 0.3:
